@@ -97,5 +97,23 @@ Proof.
             repeat match goal with A : context[Nat.eqb ?a ?b] |- _ => destruct (Nat.eqb_spec a b); subst end; inj;
             match goal with A : roots _ _ = Some ?R |- NoDup (r_errors ?R') /\ _ =>
               destruct (IE _ _ A) as [N Q]; split; [exact N|]; exact Q end).
-  all: idtac "LEFT-errs". Show 1. Show 2. Show 3. Show 4.
-Abort.
+  - pose proof (errs_add_m (set_r s r (R0 w)) r (M0 r None) r0 H eq_refl) as EQ.
+    simpl in Hr0; unfold upd in Hr0. destruct (Nat.eqb_spec r0 r).
+    + subst. injection Hr0 as <-. simpl. split; [constructor|]. intros x. rewrite (EQ x). split; [intros []|].
+      intros (Mx & A & B & C). simpl in A. destruct (i_root s I x Mx A) as [Rx HRx]. rewrite B in HRx. congruence.
+    + destruct (IE _ _ Hr0) as [N Q]. split; [exact N|]. intros x. rewrite (EQ x). apply Q.
+  - pose proof (i_mon s I m M H) as OK. unfold mon_ok in OK. rewrite H0 in OK. destruct OK as (Att & _).
+    simpl in Hr0; unfold upd in Hr0. destruct (Nat.eqb_spec r0 (m_root M)).
+    + subst. injection Hr0 as <-. simpl. destruct (IE _ _ H2) as [N Q]. split.
+      * apply nodup_snoc; [exact N|]. intros C. apply Q in C. destruct C as (Mx & A & B & D).
+        rewrite H in A. injection A as <-. congruence.
+      * intros x. rewrite in_app_iff. unfold has_att; simpl; unfold upd. destruct (Nat.eqb_spec x m).
+        -- subst. split; [intros _; eexists; split; [reflexivity|]; simpl; auto | intros _; right; left; reflexivity].
+        -- rewrite (Q x). split; [intros [A|[A|[]]]; [exact A|congruence] | intros A; left; exact A].
+    + destruct (IE _ _ Hr0) as [N Q]. split; [exact N|]. intros x. rewrite (Q x).
+      unfold has_att; simpl; unfold upd. destruct (Nat.eqb_spec x m).
+      * subst. split; intros (Mx & A & B & D).
+        -- rewrite H in A. injection A as <-. congruence.
+        -- injection A as <-. simpl in B. congruence.
+      * tauto.
+Qed.
